@@ -87,4 +87,53 @@ theorem typesRun_refines (ops : List TOp) : ∀ {r : Types} {a : List TypeD}, TI
     simp only [Types.run, Spec.runT]
     exact ⟨by rw [h1, g1], g2⟩
 
+/-! ## facts used by the statements of Props/C33 -/
+
+theorem register_ok_or_init (r : Files) (f : FileD) :
+    (r.register f).2 = .regOk ∨ (r.register f).1 = { r with descs := initDescs r.descs } := by
+  unfold Files.register
+  simp only
+  split
+  · exact Or.inr rfl
+  split
+  · exact Or.inr rfl
+  split
+  · exact Or.inr rfl
+  split
+  · exact Or.inl rfl
+  · exact Or.inr rfl
+
+theorem register_fail_state (r : Files) (f : FileD) (h : (r.register f).2 ≠ .regOk) :
+    (r.register f).1 = { r with descs := initDescs r.descs } :=
+  (register_ok_or_init r f).resolve_left h
+
+/-- consistency of the abstract type table: names are unique, and so are the numbers of the
+extensions of each message -/
+def TValid (a : List TypeD) : Prop :=
+  (a.map (·.full)).Nodup ∧ ∀ m, ((Spec.extsOf a m).map (·.number)).Nodup
+
+theorem tvalid_registerT (a : List TypeD) (t : TypeD) (v : TValid a) : TValid (Spec.registerT a t).1 := by
+  unfold Spec.registerT
+  split
+  · exact v
+  split
+  · exact v
+  · rename_i c1 c2
+    refine ⟨?_, ?_⟩
+    · simp only [List.map_append, List.map_cons, List.map_nil]
+      rw [List.nodup_append]
+      refine ⟨v.1, by simp, ?_⟩
+      intro x hx y hy e
+      simp at hy; subst hy; subst e; exact c2 hx
+    · intro m
+      by_cases hm : t.kind = .extension ∧ t.extendee = m
+      · obtain ⟨hk, rfl⟩ := hm
+        rw [extsOf_append_self a t hk]
+        simp only [List.map_append, List.map_cons, List.map_nil]
+        rw [List.nodup_append]
+        refine ⟨v.2 _, by simp, ?_⟩
+        intro x hx y hy e
+        simp at hy; subst hy; subst e; exact c1 ⟨hk, hx⟩
+      · rw [extsOf_append_other a t m hm]; exact v.2 m
+
 end Model.Registry
